@@ -11,11 +11,13 @@ import (
 	"verifsim/harness"
 	"verifsim/ref/obfs4ref"
 	"verifsim/sim"
+	"verifsim/simnet"
 )
 
 func init() { register(&harness.Prop{ID: "C05", Run: runC05}) }
 
 func runC05(c *harness.Ctx) {
+	defer maybeWoven(c)()
 	t := c.T
 	setBias(false)
 	iat := t.Draw("iat", 3)
@@ -121,6 +123,8 @@ func runC05(c *harness.Ctx) {
 	type fr struct {
 		wire    []byte
 		payload int
+		pad     int
+		ctr     uint64
 	}
 	var frames []fr
 	var off int64
@@ -129,7 +133,8 @@ func runC05(c *harness.Ctx) {
 		buf := make([]byte, n)
 		patFill(7, off, buf)
 		off += int64(n)
-		return fr{wire: ref.sess.Frame(obfs4ref.PacketPayload, buf, pad), payload: n}
+		ctr := ref.sess.Enc.Ctr()
+		return fr{wire: ref.sess.Frame(obfs4ref.PacketPayload, buf, pad), payload: n, pad: pad, ctr: ctr}
 	}
 	for i := 0; i < k; i++ {
 		n := sizes[t.Draw("fsz", len(sizes))]
@@ -147,7 +152,7 @@ func runC05(c *harness.Ctx) {
 		frames = append(frames, mk(obfs4ref.MaxPacketPayload, 0))
 	}
 	j := t.Draw("at", k) // damaged frame index (0-based) among the first k
-	ops := []string{"flip-length", "flip-tag", "flip-body", "delete", "duplicate", "swap", "replay-earlier", "insert", "truncate-eof", "truncate-silence", "none", "swap-bodies", "dup-body"}
+	ops := []string{"flip-length", "flip-tag", "flip-body", "delete", "duplicate", "swap", "replay-earlier", "insert", "truncate-eof", "truncate-silence", "none", "swap-bodies", "dup-body", "reseal-under-zero-key-while-closing"}
 	op := ops[t.Draw("op", len(ops))]
 	if op == "replay-earlier" && j == 0 {
 		op = "duplicate"
@@ -177,6 +182,7 @@ func runC05(c *harness.Ctx) {
 	var stream []byte
 	emit := func(i int) { stream = append(stream, frames[i].wire...) }
 	cutEOF, silence := false, false
+	holdAt := -1 // the attacker sends stream[holdAt:] only once everything before the damage is delivered
 	damaged := true
 	switch op {
 	case "flip-length", "flip-tag", "flip-body":
@@ -258,6 +264,27 @@ func runC05(c *harness.Ctx) {
 			}
 			emit(i)
 		}
+	case "reseal-under-zero-key-while-closing":
+		// The attacker cannot know the session's key.  It can count frames, it
+		// can leave the genuine (masked) length in place, and it can seal a body
+		// of its own under a key anybody knows - all zeroes, nonce prefix all
+		// zeroes, the right counter - and send it at the instant the victim's
+		// application closes the connection while its reader is still in Read.
+		for i := 0; i < j; i++ {
+			emit(i)
+		}
+		holdAt = len(stream)
+		forged := make([]byte, frames[j].payload)
+		for i := range forged {
+			forged[i] = 0xA7
+		}
+		var zk [32]byte
+		var zp [16]byte
+		stream = append(stream, frames[j].wire[:2]...)
+		stream = append(stream, obfs4ref.SealBox(&zk, &zp, frames[j].ctr, obfs4ref.MakePacket(obfs4ref.PacketPayload, forged, frames[j].pad))...)
+		for i := j + 1; i < len(frames); i++ {
+			emit(i)
+		}
 	case "truncate-eof", "truncate-silence":
 		for i := 0; i < j; i++ {
 			emit(i)
@@ -283,6 +310,29 @@ func runC05(c *harness.Ctx) {
 	var rdErr error
 	var rdDone bool
 	afterErr := 0
+	reached := make(chan struct{}) // closed once everything before the damage is delivered
+	reachedDone := false
+	signal := func() {
+		if !reachedDone && got >= int64(intact) {
+			reachedDone = true
+			close(reached)
+		}
+	}
+	if holdAt >= 0 {
+		signal()
+		closeAfter := time.Duration(0)
+		if t.Draw("close.lat", 2) == 1 {
+			closeAfter = ref.conn.(*simnet.Conn).Out().Latency
+		}
+		c.S.Go(map[bool]string{true: "c", false: "s"}[victimIsClient]+"/closer", func() {
+			<-reached
+			c.S.Park("v", "closer")
+			if closeAfter > 0 {
+				c.S.Sleep(closeAfter)
+			}
+			victim.Close()
+		})
+	}
 	c.S.Go(map[bool]string{true: "c", false: "s"}[victimIsClient]+"/reader", func() {
 		buf := make([]byte, []int{32768, 1, 100, 1427, 4096}[t.Draw("rdbuf", 5)])
 		for {
@@ -296,6 +346,9 @@ func runC05(c *harness.Ctx) {
 					return
 				}
 				got += int64(n)
+				if holdAt >= 0 {
+					signal()
+				}
 				// (once the damage has been reported, what an application that
 				// nevertheless reads on receives must still be a prefix of what the
 				// peer wrote - checked above - but is no longer bounded by the damage)
@@ -325,6 +378,13 @@ func runC05(c *harness.Ctx) {
 			n := len(stream) - pos
 			if t.Draw("wsplit", 3) == 2 {
 				n = 1 + t.Draw("wn", n)
+			}
+			if holdAt >= 0 && pos < holdAt && pos+n > holdAt {
+				n = holdAt - pos
+			}
+			if holdAt >= 0 && pos == holdAt {
+				<-reached
+				c.S.Park("r", "attacker-go")
 			}
 			if _, err := ref.conn.Write(stream[pos : pos+n]); err != nil {
 				return
